@@ -85,6 +85,12 @@ def worker(k, jobs, results, lock):
         if job.get("patch"):
             r = sh(f"git -C {w} apply {job['patch']}")
             if r.returncode != 0:
+                # written against lines which a later fix: commit changed — try with fuzz before giving up
+                sh(f"git -C {w} checkout -q -- . && git -C {w} clean -fdq")
+                r = sh(f"cd {w} && patch -p1 --fuzz=3 -s --no-backup-if-mismatch < {job['patch']} && ! find . -name '*.rej' | grep -q .")
+                if r.returncode != 0:
+                    sh(f"git -C {w} checkout -q -- . && git -C {w} clean -fdq")
+            if r.returncode != 0:
                 res["error"] = "patch does not apply: " + r.stderr[-300:]
                 with lock:
                     results.append(res)
